@@ -216,7 +216,10 @@ def classify(H, q, x, y, base, snap=None):
             tx, ty = common.unhexs(x.split(" ")[1]), common.unhexs(y.split(" ")[1])
         except Exception:
             tx = ty = ""
-        if tx != ty and alpha(x) != alpha(y) and has_recursion_cycle(texts.get(fi, H.files[fi][1])):
+        # the recorded finding: a CYCLIC type of an ill-typed recursion group is cut (shown as `?`) where the collector meets
+        # the cycle first, and it walks the functions of the group in hash-map order.  Two differing types without a `?`
+        # are another defect.  (The function hovered may be one of ANOTHER module of the workspace: `m1.f` from a module that imports m1.)
+        if tx != ty and alpha(x) != alpha(y) and ("?" in tx or "?" in ty) and any(has_recursion_cycle(t) for t in ([texts.get(fi, H.files[fi][1])] + list(texts.values()))):
             return "C11/inference-order-in-recursion-group"
     if q.startswith("hover") and alpha(x) == alpha(y):
         return "C11/type-variable-names-depend-on-hash-order"
@@ -331,6 +334,96 @@ def run_multi_package_determinism(res, tier, seed):
                 return
 
 
+def run_query_order(res, tier, seed):
+    """the answers for one workspace do not depend on which query came FIRST: modules whose functions form a recursion group
+    that does not type-check (one member passes an Int where another uses a String), without cyclic types - the inferred
+    types then depend on the order in which the members are inferred, which must be a function of the text.  Every
+    instance gets the same workspace and the same questions, but its first question is a hover inside the body of another
+    member of the group (or a definition / references request there); one instance comes from an edit history (another text first)."""
+    rng = random.Random(seed * 17 + 5)
+    lits = [("1", '<> "s"'), ("1.5", "+ 1"), ('"s"', "+ 1"), ("True", "+. 1.0"), ("1", "&& True"), ('"s"', "-. 2.0")]
+    jobs = []
+    for k in range(12 if tier == "quick" else 150):
+        n = rng.choice([2, 2, 3, 4])
+        names = rng.sample(["f", "g", "hh", "step", "walk", "pong", "zig", "a1"], n)
+        lit, use = rng.choice(lits)
+        fns = []
+        marks = []
+        for i, nm in enumerate(names):
+            nxt = names[(i + 1) % n]
+            if i == 0:
+                body = f"  {nxt}({lit})\n"
+                head = f"fn {nm}() {{\n"
+            else:
+                call = f"{nxt}()" if (i + 1) % n == 0 else f"{nxt}(x)"
+                body = f"  {call}\n  x {use}\n"
+                head = f"fn {nm}(x) {{\n"
+            fns.append(("pub " if rng.random() < 0.3 else "") + head + body + "}\n")
+        order = list(range(n))
+        if rng.random() < 0.5:
+            rng.shuffle(order)      # the member that passes the literal is not always the first in the text
+        text = "".join(fns[i] for i in order)
+        other = "fn a() { 1 }\nfn b(y) { y }\nfn c(z) { z }\nfn d(w) { w }\n"
+        import re as _re
+        qoffs = [m.start(1) for m in _re.finditer(r"fn ([a-z0-9]+)", text)] + [m.start(1) for m in _re.finditer(r"\n  ([a-z0-9]+)\(", text)] + [m.start() + 1 for m in _re.finditer(r"\(x\)", text)]
+        Q = [f"hover\t0\t{o}" for o in qoffs]
+        bodies = [m.start() + 3 for m in _re.finditer(r"\n  x ", text)] + [m.start(1) for m in _re.finditer(r"\n  ([a-z0-9]+)\(", text)]
+        toml = hexs('name = "p"\n')
+        def change(t):
+            return f"hist-change\tp:1:1:\t/w/p|0=/w/p/src/m1.gleam,1=/w/p/gleam.toml\t0:{hexs(t)},1:{toml}"
+        variants = [("no other question", ["hist-reset", change(text)], [])]
+        for b in bodies:
+            for kind in ("hover", "goto", "refs"):
+                variants.append((f"first question: {kind} at offset {b}", ["hist-reset", change(text)], [f"{kind}\t0\t{b}"]))
+        variants.append(("first question: diagnostics and highlighting", ["hist-reset", change(text)], ["diag\t0", "sem\t0"]))
+        ob = [m.start() + 2 for m in _re.finditer(r"\{ [yzw] \}", other)]
+        for o in ob:
+            variants.append((f"history: another text first, hover at {o} there, then the text replaced",
+                             ["hist-reset", change(other), f"hover\t0\t{o}", f"hist-change\tnone\tnone\t0:{hexs(text)}"], []))
+        jobs.append((text, Q, variants))
+    lines, plan = [], []
+    for text, Q, variants in jobs:
+        for what, pre, first in variants:
+            lines += pre + first
+            plan.append((len(lines), what))
+            lines += Q
+    out, rc = common.run_lines(common.HARNESS_BIN, lines)
+    if len(out) != len(lines):
+        raise Broken("implementation harness died", "during the query-order stage")
+    res.cov["evaluations"] += len(lines)
+    res.cov["query_order"] = f"{len(jobs)} ill-typed recursion groups, {len(plan)} instances"
+    pi = 0
+    for text, Q, variants in jobs:
+        ref = None
+        for what, pre, first in variants:
+            at, _ = plan[pi]; pi += 1
+            ans = [canon(a) for a in out[at:at + len(Q)]]
+            if ref is None:
+                ref = ans
+            elif ans != ref:
+                j = next(i for i in range(len(Q)) if ans[i] != ref[i])
+                def txt(a):
+                    try:
+                        return common.unhexs(a.split(" ")[1]).replace("\n", " ").replace("```gleam", "").replace("```", "").replace("___", "").strip()
+                    except Exception:
+                        return a[:80]
+                if alpha(ans[j]) == alpha(ref[j]):
+                    # the recorded finding: the letters of generic type variables depend on hash order; go on to the next difference
+                    diffs = [i for i in range(len(Q)) if alpha(ans[i]) != alpha(ref[i])]
+                    if not diffs:
+                        res.add_violation("C11/type-variable-names-depend-on-hash-order", f"`{Q[j]}` answers {txt(ref[j])!r} and {txt(ans[j])!r} on the same workspace ({what})",
+                                          {"text": text, "query": Q[j], "instance": what})
+                        continue
+                    j = diffs[0]
+                if "?" in txt(ans[j]) or "?" in txt(ref[j]):
+                    key = "C11/inference-order-in-recursion-group"
+                else:
+                    key = "C11/answer-depends-on-first-question"
+                res.add_violation(key, f"`{Q[j]}` answers {txt(ref[j])!r} on a fresh analysis and {txt(ans[j])!r} on the same workspace with {what}",
+                                  {"text": text, "query": Q[j], "instance": what, "lines": pre + first + Q})
+                break
+
+
 def run(prop, res, tier, seed):
     res.assumptions += ["salsa (memoisation, revisions, durability) is trusted; only the input layer (Change::apply) is modelled",
                         "queries are pure functions of the inputs they can reach: checked by comparison with fresh databases, not proved"]
@@ -340,6 +433,7 @@ def run(prop, res, tier, seed):
         res.add_broken(b.what, b.detail)
     run_c11(res, tier, seed)
     run_multi_package_determinism(res, tier, seed)
+    run_query_order(res, tier, seed)
     if res.disagreements:
         rq, a, b = res.disagreements[0]
         res.add_broken("correspondence model-vs-implementation (M-db vs AnalysisHost::verif_inputs)",
